@@ -2,6 +2,7 @@ package main
 
 import (
 	"fmt"
+	"math"
 	"strconv"
 	"strings"
 
@@ -11,7 +12,7 @@ import (
 func init() {
 	core.Register(&core.Spec{
 		ID: "C16", Level: "exploration",
-		Rule: "one case = one history of 8..40 cursor operations on two cursors (DECLARE, OPEN, FETCH NEXT/PRIOR/FIRST/LAST/ABSOLUTE n/RELATIVE n with n in {0,±1,±len,±(len+1),10^12}, CLOSE, DISPOSE, WHILE..IN, the status expressions IS [NOT] OPEN / IS [NOT] IN RANGE / COUNT) interleaved with INSERT/UPDATE/DELETE/ALTER on the underlying table, COMMIT and ROLLBACK, executed statement by statement in one real transaction; result sizes 0,1,2,7 and 300. " +
+		Rule: "one case = one history of 8..40 cursor operations on two cursors (DECLARE, OPEN, FETCH NEXT/PRIOR/FIRST/LAST/ABSOLUTE n/RELATIVE n with n in {0,±1,±len,±(len+1),10^12, the largest and the smallest integer}, CLOSE, DISPOSE, WHILE..IN, the status expressions IS [NOT] OPEN / IS [NOT] IN RANGE / COUNT) interleaved with INSERT/UPDATE/DELETE/ALTER on the underlying table, COMMIT and ROLLBACK, executed statement by statement in one real transaction; result sizes 0,1,2,7 and 300. " +
 			"Oracle: a cursor model (declared, open, snapshot rows taken by a SELECT of the same query at OPEN time, pointer clamped to [-1,len], fetched flag); fetched values, status values, the rows visited by WHILE..IN and whether an operation is an error are compared after every operation. non-trivial = at least 3 in-range fetches were compared after the underlying table had changed; distinct = history digest.",
 		Quick: 8000, Thorough: 500000, FloorQuick: 600, FloorThorough: 40000,
 		Assumptions: []string{"the variables after an out-of-range FETCH are not judged (the manual says NULL, the property is silent)", "fetch offsets that are not integers are executed only to watch for internal failures"},
@@ -130,7 +131,13 @@ func c16Case(w *core.Worker, i int) {
 		case op <= 10:
 			pos, num := "", 0
 			L := len(c.rows)
-			nums := []int{0, 1, -1, L, -L, L + 1, -(L + 1), 2, 1000000000000}
+			nums := []int{0, 1, -1, L, -L, L + 1, -(L + 1), 2, 1000000000000, math.MaxInt64, math.MinInt64}
+			numText := func(n int) string {
+				if n == math.MinInt64 {
+					return "(-9223372036854775807 - 1)" // the literal itself is not an integer literal
+				}
+				return fmt.Sprint(n)
+			}
 			newIdx := c.idx
 			switch r.Intn(8) {
 			case 0:
@@ -145,10 +152,19 @@ func c16Case(w *core.Worker, i int) {
 				pos, newIdx = "LAST ", L-1
 			case 5, 6:
 				num = nums[r.Intn(len(nums))]
-				pos, newIdx = fmt.Sprintf("ABSOLUTE %d ", num), num
+				pos, newIdx = fmt.Sprintf("ABSOLUTE %s ", numText(num)), num
 			default:
 				num = nums[r.Intn(len(nums))]
-				pos, newIdx = fmt.Sprintf("RELATIVE %d ", num), c.idx+num
+				pos = fmt.Sprintf("RELATIVE %s ", numText(num))
+				// the addressed position is the mathematical sum: far beyond either end, never wrapped around
+				switch {
+				case num > 0 && c.idx > math.MaxInt64-num:
+					newIdx = math.MaxInt64
+				case num < 0 && c.idx < math.MinInt64-num:
+					newIdx = math.MinInt64
+				default:
+					newIdx = c.idx + num
+				}
 			}
 			res := exec(fmt.Sprintf("FETCH %s%s INTO @a, @b;", pos, cn))
 			if !c.declared || !c.open {
